@@ -11,10 +11,11 @@ Concrete values are ordinary Python objects.  Symbolic values:
 * SymSeq                          - bytes / bytearray / str(ASCII) / Bio.Seq / typed memoryview / 1-d numpy array
                                     as (shared cell list, offset, length)
 """
+import os
 import z3
 import numpy as np
 
-PYINT_BITS = 32
+PYINT_BITS = int(os.environ.get('KBMC_PYINT_BITS', '32'))
 
 
 class CannotEncode(Exception):
@@ -284,6 +285,9 @@ def ite(c, a, b):
     if a is UNSET:
         return b
     if isinstance(a, SymSeq) and isinstance(b, SymSeq):
+        if a.pytype == 'ndarray' and b.pytype == 'ndarray' and (a.writable or b.writable) and a.cells is not b.cells:
+            # distinct mutable buffers: keep their identities apart so that later writes go to the right one
+            return PyChoice.merge(c, a, b)
         return SymSeq.merge(c, a, b)
     if a is None and b is None:
         return None
@@ -302,7 +306,19 @@ def ite(c, a, b):
             elif kb[0] == 'c' and ka[0] == 's' and not is_sym(a):
                 ta, ka = CVal(int(a), kb[1]).z3(), kb
             else:
-                raise CannotEncode(f'cannot merge {a!r} with {b!r}')
+                # integer values of different C / numpy types (or C value vs python int): merge as python ints
+                def widen(t, k, orig):
+                    if k[0] == 's':
+                        return t
+                    ct = k[1]
+                    if ct.kind != 'int' or ct.bits + (0 if ct.signed else 1) > PYINT_BITS:
+                        raise CannotEncode(f'cannot merge {a!r} with {b!r}')
+                    return z3.SignExt(PYINT_BITS - ct.bits, t) if ct.signed else z3.ZeroExt(PYINT_BITS - ct.bits, t)
+                if ka[0] in 'cs' and kb[0] in 'cs':
+                    ta, tb = widen(ta, ka, a), widen(tb, kb, b)
+                    ka = kb = ('s',)
+                else:
+                    raise CannotEncode(f'cannot merge {a!r} with {b!r}')
         if z3.eq(ta, tb):
             return a
         return from_z3_scalar(z3.If(c, ta, tb), ka)
@@ -346,6 +362,8 @@ class PyChoice:
 
 def _choiceable(x):
     if isinstance(x, PyChoice) or x is None or isinstance(x, (str, bytes, tuple)):
+        return True
+    if isinstance(x, SymSeq) and x.writable and x.pytype == 'ndarray':
         return True
     return getattr(x, 'choiceable', False)
 
